@@ -42,7 +42,7 @@ ASSUMPTIONS = [
 SHARD_TIMEOUT = {"quick": 900, "thorough": 5400}
 
 PROFILE = dict(interpreted_functions=0.15, undefined_init=0.25, invariants=0.3)
-BOUNDS = {"quick": dict(n=1000, depth=3, max_states=40, max_inst=40), "thorough": dict(n=3000, depth=5, max_states=250, max_inst=60)}
+BOUNDS = {"quick": dict(n=1000, depth=3, max_states=40, max_inst=40, walk=45), "thorough": dict(n=3000, depth=5, max_states=250, max_inst=60, walk=120)}
 
 
 def plan(tier, seed):
@@ -136,6 +136,43 @@ def run_examples(b, res, only=None):
             res.count("examples_skipped_unsupported")
 
 
+def long_walk(pb, sim, ls, rs, gfl, insts, steps, rng, res, viol):
+    """A deep lock-step trajectory (beyond UPState's ancestor-flattening depth): one random reference-applicable instance per step."""
+    path = []
+    for i in range(steps):
+        cands = []
+        for a, args in insts:
+            r = seqsem.succ(pb, rs, a, args)
+            if r.status == OKAY:
+                cands.append((a, args, r))
+        changing = [c for c in cands if c[2].info.get("changed")]
+        pool = changing if changing and rng.random() < 0.85 else cands
+        if not pool:
+            break
+        a, args, r = rng.choice(pool)
+        step = [a.name, list(args)]
+        res.mon()
+        res.case()
+        try:
+            ns = sim.apply(ls, a, seqsem.param_exprs(pb, a, args))
+        except Exception as e:
+            viol(f"simulator-raises:{type(e).__name__}", f"apply raised {e!r} at step {i} of a long walk", path=path, step=step)
+            return
+        if ns is None:
+            viol("inapplicable-but-reference-applicable:deep", f"step {i} {step} of a long walk: reference applicable, apply returned None", path=path, step=step)
+            return
+        got = seqsem.read_state(pb, ns, gfl)
+        if got != r.state:
+            diff = {str(k): (str(r.state.get(k, "UNDEF")), str(got.get(k, "UNDEF"))) for k in set(got) | set(r.state) if got.get(k, seqsem.UNDEF) != r.state.get(k, seqsem.UNDEF)}
+            viol("successor-mismatch:deep", f"step {i} {step} of a long walk in {seqsem.show_state(rs)}: successor differs (expected, observed) {diff}", path=path, step=step, diff=diff)
+            return
+        path.append(step)
+        ls, rs = ns, r.state
+        res.count("long_walk_steps")
+        if i >= 21:
+            res.count("long_walk_steps_beyond_20")
+
+
 def explore(pb, rec, feats, wbase, b, res):
     from unified_planning.engines.sequential_simulator import UPSequentialSimulator
     from unified_planning.exceptions import UPProblemDefinitionError, UPUsageError
@@ -197,6 +234,8 @@ def explore(pb, rec, feats, wbase, b, res):
     if got0 != rs0:
         viol("initial-state-values", f"initial state differs: expected {seqsem.show_state(rs0)}, got {seqsem.show_state(got0)}", expected=seqsem.show_state(rs0), observed=seqsem.show_state(got0))
         return
+    if b.get("walk") and int(pid, 16) % 3 == 0:
+        long_walk(pb, sim, ls0, rs0, gfl, insts, b["walk"], rng_for(pid, "walk"), res, viol)
     sampled = False
     seen = {seqsem.freeze(rs0)}
     queue = deque([(ls0, rs0, 0, [])])
@@ -325,6 +364,8 @@ def thresholds(m):
     for k in REQUIRED:
         if c.get(k, 0) < 2:
             out.append(f"fewer than 2 observations of class {k} ({c.get(k, 0)})")
+    if c.get("long_walk_steps_beyond_20", 0) < 50:
+        out.append("fewer than 50 lock-step steps deeper than 20 (UPState ancestor flattening never exercised)")
     if len(m["nontrivial"]) < 20:
         out.append("fewer than 20 distinct non-trivial triples")
     return out
